@@ -173,6 +173,12 @@ pub fn verif_root() -> PathBuf {
         .unwrap_or_else(|_| PathBuf::from("/verif"))
 }
 
+/// Where replays and evidence are written: VERIF_OUT when set (detection demonstrations on a
+/// patched tree must not overwrite the committed evidence), else the root itself.
+pub fn out_root() -> PathBuf {
+    std::env::var("VERIF_OUT").map(PathBuf::from).unwrap_or_else(|_| verif_root())
+}
+
 #[derive(Debug, Clone)]
 pub struct Known {
     pub property: String,
@@ -285,7 +291,8 @@ impl Report {
     pub fn finish(self, acc: Acc) -> i32 {
         let root = verif_root();
         let known = load_known(&root.join("known_findings.txt"));
-        let replay_dir = root.join("replays").join(&self.property);
+        let out = out_root();
+        let replay_dir = out.join("replays").join(&self.property);
         let mut new_violations = 0usize;
         let mut known_hit = Vec::new();
         let mut lines = Vec::new();
@@ -383,7 +390,7 @@ impl Report {
             "wall_s": (wall * 1000.0).round() / 1000.0,
             "violations": new_violations,
         });
-        let evdir = root.join("evidence");
+        let evdir = out.join("evidence");
         let _ = std::fs::create_dir_all(&evdir);
         let evpath = evdir.join(format!("{}.json", self.property));
         if let Err(e) = std::fs::write(&evpath, serde_json::to_string_pretty(&ev).unwrap() + "\n") {
